@@ -64,16 +64,21 @@ def main(tier):
     for inv, st in V.violating_states(r):
         for (i, t) in st.get('bad', []):
             x = recs[i - 1]
+            if t.startswith('obs:'):
+                ev.cov.setdefault('observations', {})[t[4:]] = ev.cov.get('observations', {}).get(t[4:], 0) + 1
+                continue
             desc = 'opts=%d P=%d buf=%d d=%d rects=%s conns=%s' % (x['opts'], x['P'], x['buf'] // LS, x['d'] // LS, [[v // LS for v in q] for q in x['rects']],
                                                                [{'src': [v // LS for v in c['src']], 'dst': [v // LS for v in c['dst']],
                                                                  'raw': [[round(p[0] / LS, 2), round(p[1] / LS, 2)] for p in c['raw']],
                                                                  'disp': [[round(p[0] / LS, 2), round(p[1] / LS, 2)] for p in c['disp']]} for c in x['conns']])
             key = 'nudge:' + t
+            if t.endswith(':shared-path-ends-at-an-endpoint-of-one-connector') and (x['opts'] & 16):
+                key = 'nudging:option-nudgeSharedPathsWithCommonEndPoint-off:endpoint-of-one-connector-on-the-shared-path'
             if t == 'endpoint-moved' and (x['opts'] & 1):
                 key = 'nudging:option-nudgeOrthogonalSegmentsConnectedToShapes:endpoint-moved'
             if t == 'exception':
                 m = re.search(r'expression: (.*)', x['what'])
-                key = 'assertion:' + re.sub(r'[^A-Za-z0-9_>!=<-]+', '', m.group(1))[:60] if m else 'exception'
+                key = 'assertion:' + re.sub(r'[^A-Za-z0-9_>!=<-]+', '', m.group(1))[:60] if m else (RC.crash_key(x['what']) if x['what'].startswith('process died') else 'exception')
                 desc = x['what'][:200] + ' ' + desc
             if t == 'checkpoint-off-route':
                 def spur(c):
